@@ -36,6 +36,19 @@ def intVal (cs : List Char) : Int :=
   | '-' :: r => -(natVal r : Int)
   | r => (natVal r : Int)
 
+def digitChar : Nat → Char
+  | 0 => '0' | 1 => '1' | 2 => '2' | 3 => '3' | 4 => '4' | 5 => '5' | 6 => '6' | 7 => '7' | 8 => '8' | _ => '9'
+
+/-- canonical decimal rendering of a natural number (`str(n)`) -/
+def renderNat (n : Nat) : List Char :=
+  if n < 10 then [digitChar n] else renderNat (n / 10) ++ [digitChar (n % 10)]
+termination_by n
+decreasing_by omega
+
+/-- `str(z)` -/
+def renderInt (z : Int) : List Char :=
+  if z < 0 then '-' :: renderNat z.natAbs else renderNat z.toNat
+
 /-- (signed?, lower bound, upper bound) of the integer families -/
 def intRange (kind : String) (signed : Bool) : Option (Int × Int) :=
   match kind, signed with
@@ -96,18 +109,25 @@ def totalDigits (ip fp : List Char) : Nat :=
   let f := (fp.reverse.dropWhile (· == '0')).reverse
   max 1 (i.length + f.length)
 
+/-- an optional minus sign: (negative?, rest) -/
+def splitMinus : List Char → Bool × List Char
+  | '-' :: r => (true, r)
+  | r => (false, r)
+
+/-- what follows the integer part: nothing when the type has no fractional digits, else a dot and
+exactly `frac` digits -/
+def fracOf (frac : Nat) (r1 : List Char) : Option (List Char) :=
+  match r1, frac with
+  | [], 0 => some []
+  | '.' :: t, (_ + 1) => if t.all isDigit && t.length == frac then some t else none
+  | _, _ => none
+
 /-- decimal with `frac` fractional digits and at most `total` significant digits -/
 def acceptsDecimal (total frac : Nat) (signed : Bool) (cs : List Char) : Bool :=
-  let (neg, r) := match cs with
-    | '-' :: r => (true, r)
-    | r => (false, r)
+  let neg := (splitMinus cs).1
+  let r := (splitMinus cs).2
   let ip := r.takeWhile isDigit
-  let r1 := r.dropWhile isDigit
-  let fpOpt : Option (List Char) := match r1, frac with
-    | [], 0 => some []
-    | '.' :: t, (_ + 1) => if t.all isDigit && t.length == frac then some t else none
-    | _, _ => none
-  match fpOpt with
+  match fracOf frac (r.dropWhile isDigit) with
   | none => false
   | some fp =>
     canonNat ip && (!neg || signed) &&
